@@ -5,6 +5,10 @@ Import ListNotations.
 From PF Require Import Arr Net Elev ElevSpec DigSpec.
 Local Open Scope Z_scope.
 
+Section C.
+Variable cost : list Z -> mods -> Z.
+
+
 Definition ninc (e : list Z) (a b : nat) : Prop := forall k, (a <= k)%nat -> (S k < b)%nat -> zn e (S k) <= zn e k.
 Definition ndec (e : list Z) (a b : nat) : Prop := forall k, (a <= k)%nat -> (S k < b)%nat -> zn e k <= zn e (S k).
 
@@ -269,7 +273,7 @@ Definition finv (st : nat * nat * Z * mods) (rest : list Z) : Prop :=
 Lemma fold_opt3 : forall rest st, StronglySorted (fun a b => a > b) rest ->
   (forall z, In z rest -> z < zmx /\ exists js, (im < js)%nat /\ (js < i)%nat /\ zn e js = z) ->
   finv st rest ->
-  let '(_, _, _, mb) := fold_left (opt3_step e im imx i) rest st in pitres e i (apply_mods e mb).
+  let '(_, _, _, mb) := fold_left (opt3_step cost e im imx i) rest st in pitres e i (apply_mods e mb).
 Proof.
   induction rest as [|z rest IH]; intros [[[i0 i1] c] m] Hs Hsrc Hf; cbn [fold_left].
   - destruct Hf as (H & _). exact H.
@@ -299,7 +303,7 @@ Proof.
       apply IH; auto; intros z' Hz'; apply Hsrc; right; exact Hz'.
 Qed.
 
-Theorem fix_pit_ok : pitres e i (fix_pit e im imx i zmin zmx).
+Theorem fix_pit_ok : pitres e i (fix_pit cost e im imx i zmin zmx).
 Proof.
   destruct (shape_zmx _ _ _ _ _ _ _ Hsh) as (Hzx & Hx1 & Hx2 & Hxb).
   unfold fix_pit.
@@ -323,9 +327,9 @@ Proof.
   pose proof (opt2_ok e im ip imx i zmin zmx Hsh) as H2. fold m2 in H2.
   destruct (cost e m2 <? cost e m1).
   - pose proof (fold_opt3 (tl zs) (0%nat, imx, cost e m2, m2) Hts Htsrc (Hstart _ _ H2)) as HF.
-    destruct (fold_left (opt3_step e im imx i) (tl zs) (0%nat, imx, cost e m2, m2)) as [[[a b] c] mb]. exact HF.
+    destruct (fold_left (opt3_step cost e im imx i) (tl zs) (0%nat, imx, cost e m2, m2)) as [[[a b] c] mb]. exact HF.
   - pose proof (fold_opt3 (tl zs) (0%nat, imx, cost e m1, m1) Hts Htsrc (Hstart _ _ H1)) as HF.
-    destruct (fold_left (opt3_step e im imx i) (tl zs) (0%nat, imx, cost e m1, m1)) as [[[a b] c] mb]. exact HF.
+    destruct (fold_left (opt3_step cost e im imx i) (tl zs) (0%nat, imx, cost e m1, m1)) as [[[a b] c] mb]. exact HF.
 Qed.
 End PitFold.
 
@@ -350,7 +354,7 @@ Definition inv (i : nat) (s : fst1) : Prop :=
     ((fimax s < i - 1)%nat -> zn (fe s) (i - 2) <= fz2 s)
   end.
 
-Lemma step_inv i s : (S i < n)%nat -> inv i s -> inv (S i) (fix_step n s i).
+Lemma step_inv i s : (S i < n)%nat -> inv i s -> inv (S i) (fix_step cost n s i).
 Proof.
   intros Hi [Hc Hph]. destruct Hc as (C0 & C1 & C2 & C3).
   unfold fix_step. set (e := fe s) in *. set (zi := zn e i).
@@ -371,7 +375,7 @@ Proof.
     destruct (zi >=? fzmax s) eqn:Ege.
     + destruct ((zi >? fz1 s) && (fz2 s >=? fz1 s)) eqn:Econd.
       * (* pit *)
-        pose proof (fix_pit_ok e im (fimax s) i i (fzmin s) zi Hsh) as HR. set (e' := fix_pit e im i i (fzmin s) zi) in *.
+        pose proof (fix_pit_ok e im (fimax s) i i (fzmin s) zi Hsh) as HR. set (e' := fix_pit cost e im i i (fzmin s) zi) in *.
         destruct HR as [R1 R2 R3 R4 R5 R6 R7 R8].
         assert (Hrise : zn e (i - 1) < zn e i).
         { apply andb_true_iff in Econd. destruct Econd as [Ec _]. apply Z.gtb_lt in Ec. unfold zi in Ec. lia. }
@@ -397,7 +401,7 @@ Proof.
              assert (zn e (i - 1) <= zn e x) by (apply (ninc_le e (fimax s) i); auto; lia). lia. }
            destruct (Nat.eq_dec (S k) i) as [Ek|Ek]; [rewrite Ek, (Ha k) by lia; unfold zi; lia|rewrite (Ha k), (Ha (S k)) by lia; lia].
     + destruct ((zi >? fz1 s) && (fz2 s >=? fz1 s)) eqn:Econd.
-      * pose proof (fix_pit_ok e im (fimax s) (fimax s) i (fzmin s) (fzmax s) Hsh) as HR. set (e' := fix_pit e im (fimax s) i (fzmin s) (fzmax s)) in *.
+      * pose proof (fix_pit_ok e im (fimax s) (fimax s) i (fzmin s) (fzmax s) Hsh) as HR. set (e' := fix_pit cost e im (fimax s) i (fzmin s) (fzmax s)) in *.
         destruct HR as [R1 R2 R3 R4 R5 R6 R7 R8].
         assert (Hrise : zn e (i - 1) < zn e i).
         { apply andb_true_iff in Econd. destruct Econd as [Ec _]. apply Z.gtb_lt in Ec. unfold zi in Ec. lia. }
@@ -466,7 +470,7 @@ Proof.
 Qed.
 
 Lemma last_step s : (1 <= n)%nat -> inv (n - 1) s ->
-  let e' := fe (fix_step n s (n - 1)) in
+  let e' := fe (fix_step cost n s (n - 1)) in
   length e' = n /\ ninc e' 0 n /\ zn e' (n - 1) = L /\ (forall k, (k < n)%nat -> lo <= zn e' k <= hi).
 Proof.
   intros Hn [Hc Hph]. destruct Hc as (C0 & C1 & C2 & C3).
@@ -482,13 +486,13 @@ Proof.
     assert (Hmin : forall k, (k < length e)%nat -> zn e i <= zn e k) by (intros k Hk; rewrite C2; apply C1; lia).
     destruct (zi >=? fzmax s).
     + pose proof (fix_pit_ok e im (fimax s) i i (fzmin s) zi Hsh) as [R1 R2 R3 R4 R5 R6 R7 R8]. cbn [fe].
-      split; [congruence|]. assert (Hl : zn (fix_pit e im i i (fzmin s) zi) i = L) by (rewrite (R8 Hmin); exact C2).
-      assert (Hlow : forall k, (k < n)%nat -> L <= zn (fix_pit e im i i (fzmin s) zi) k) by (intros k Hk; apply R6; [intros k' Hk'; apply C1; lia|lia]).
+      split; [congruence|]. assert (Hl : zn (fix_pit cost e im i i (fzmin s) zi) i = L) by (rewrite (R8 Hmin); exact C2).
+      assert (Hlow : forall k, (k < n)%nat -> L <= zn (fix_pit cost e im i i (fzmin s) zi) k) by (intros k Hk; apply R6; [intros k' Hk'; apply C1; lia|lia]).
       split; [apply Hfin; auto; congruence|]. split; [exact Hl|].
       intros k Hk. split; [apply R6; [intros k' Hk'; apply C3; lia|lia]|apply R7; [intros k' Hk'; apply C3; lia|lia]].
     + pose proof (fix_pit_ok e im (fimax s) (fimax s) i (fzmin s) (fzmax s) Hsh) as [R1 R2 R3 R4 R5 R6 R7 R8]. cbn [fe].
-      split; [congruence|]. assert (Hl : zn (fix_pit e im (fimax s) i (fzmin s) (fzmax s)) i = L) by (rewrite (R8 Hmin); exact C2).
-      assert (Hlow : forall k, (k < n)%nat -> L <= zn (fix_pit e im (fimax s) i (fzmin s) (fzmax s)) k) by (intros k Hk; apply R6; [intros k' Hk'; apply C1; lia|lia]).
+      split; [congruence|]. assert (Hl : zn (fix_pit cost e im (fimax s) i (fzmin s) (fzmax s)) i = L) by (rewrite (R8 Hmin); exact C2).
+      assert (Hlow : forall k, (k < n)%nat -> L <= zn (fix_pit cost e im (fimax s) i (fzmin s) (fzmax s)) k) by (intros k Hk; apply R6; [intros k' Hk'; apply C1; lia|lia]).
       split; [apply Hfin; auto; congruence|]. split; [exact Hl|].
       intros k Hk. split; [apply R6; [intros k' Hk'; apply C3; lia|lia]|apply R7; [intros k' Hk'; apply C3; lia|lia]].
   - destruct Hph as (Nn & _). rewrite orb_false_r.
@@ -500,15 +504,15 @@ End Loop.
 
 (* ---------- the theorem ---------- *)
 Lemma fold_inv n L lo hi : forall len a s, (a + len < n)%nat -> inv n L lo hi a s ->
-  inv n L lo hi (a + len) (fold_left (fix_step n) (seq a len) s).
+  inv n L lo hi (a + len) (fold_left (fix_step cost n) (seq a len) s).
 Proof.
   induction len as [|len IH]; intros a s Hb Hi; simpl; [rewrite Nat.add_0_r; exact Hi|].
   replace (a + S len)%nat with (S a + len)%nat by lia. apply IH; [lia|]. apply step_inv; auto. lia.
 Qed.
 
 Theorem fix1d_contract_all l lo hi : l <> [] -> (forall x, In x l -> lo <= x <= hi) ->
-  length (fix1d l) = length l /\ ninc (fix1d l) 0 (length l) /\
-  zn (fix1d l) (length l - 1) = zn l (length l - 1) /\ (forall k, (k < length l)%nat -> lo <= zn (fix1d l) k <= hi).
+  length (fix1d cost l) = length l /\ ninc (fix1d cost l) 0 (length l) /\
+  zn (fix1d cost l) (length l - 1) = zn l (length l - 1) /\ (forall k, (k < length l)%nat -> lo <= zn (fix1d cost l) k <= hi).
 Proof.
   intros Hne Hr. unfold fix1d. destruct l as [|e0 t] eqn:El; [congruence|]. rewrite <- El in *.
   set (n := length l). set (L := zn l (n - 1)). set (e1 := map (Z.max L) l).
@@ -533,3 +537,4 @@ Proof.
   destruct (last_step n L lo hi _ Hn H1) as (A & B & C & D).
   split; [exact A|]. split; [exact B|]. split; [exact C|exact D].
 Qed.
+End C.
